@@ -220,8 +220,9 @@ func TestVerif_C03_h3cut(t *testing.T) {
 		}
 		return c
 	}
-	n := verifh.N(60, 600)
+	n := verifh.N(250, 2000)
 	reached := map[string]int{}
+	knownSeen := map[string]int{}
 	failures := 0
 	for i := 0; i < n && failures < 12; i++ {
 		body := verifh.RandBytes(r, 1+r.Intn(300), "abcdefghijklmnopqrstuvwxyz")
@@ -349,6 +350,14 @@ func TestVerif_C03_h3cut(t *testing.T) {
 			sc.name, sc.declared, len(body), sc.send, sc.extra, sc.frames, stream, c04Short(o.first), o.ferr, o.secondOK)
 		if why != "" {
 			human += " ORACLE: " + why
+		}
+		if !ok && class != "" {
+			// report a known finding a few times only, so that it cannot crowd out an unknown one
+			knownSeen[class]++
+			if knownSeen[class] > 3 {
+				s.Count("known-not-reported-again:" + class)
+				ok = true
+			}
 		}
 		s.Observe(fmt.Sprintf("h3cut/%d/%s/%d/%d/%d", i, sc.name, sc.declared, sc.send, sc.frames), ok, class, !sc.complete, human, why)
 	}
